@@ -96,9 +96,27 @@ TIE_TEMPLATES = ["SrcTieLevel", "SrcTieTables", "SrcTiePreds", "SrcTieDir", "Src
 TIE_PROPS = {"C19": ["Proofs/SrcTieLevel.v"], "C14": ["Proofs/SrcTieTables.v"], "C15": ["Proofs/SrcTieTables.v"],
              "C01": ["Proofs/SrcTiePreds.v", "Proofs/SrcTiePipe.v"], "C11": ["Proofs/SrcTieLevel.v"],
              "C03": ["Proofs/SrcTieL1.v"], "C16": ["Proofs/SrcTieBaseDir.v"], "C17": ["Proofs/SrcTieDir.v"]}
+# the lemmas of a shared tie file a property leans on (None / absent = all of the file)
+TIE_LEMMAS = {"C11": ["tie_max_depths", "tie_new_explicit", "tie_next_ltr", "tie_next_rtl", "tie_raise", "tie_lowest_ge_rtl"]}
 # a tie file that stops compiling is a broken obligation, except where the correspondence is EXHAUSTIVE over
 # the function's whole (finite) domain and is therefore a complete tie on its own
 TIE_FALLBACK_EXHAUSTIVE = {"C14", "C15"}
+
+def srcgen_sha():
+    p = os.path.join(COQ, "SrcGen.v")
+    return hashlib.sha256(open(p, "rb").read()).hexdigest() if os.path.exists(p) else "none"
+
+def load_failed_blocks():
+    """tie-lemma blocks known not to check against the current SrcGen.v: {block id: [lemma names]}"""
+    p = os.path.join(CACHE, "tie_failed.json")
+    if os.path.exists(p):
+        d = json.load(open(p))
+        if d.get("srcgen") == srcgen_sha():
+            return d.get("blocks", {})
+    return {}
+
+def save_failed_blocks(blocks):
+    json.dump({"srcgen": srcgen_sha(), "blocks": blocks}, open(os.path.join(CACHE, "tie_failed.json"), "w"))
 
 def stage_translate(tmp, exclude=()):
     """rs2v (syn-based translator: data + small pure functions) on /repo's working tree; the older regex
@@ -144,18 +162,25 @@ def stage_translate(tmp, exclude=()):
         report["translated"] = []
     else:
         problems.append("translator failed: rs2v: %s; gen_tables.py: %s" % ("; ".join(report["fatal"])[:300], out2.strip()[-200:]))
-    # tie files: keep the lemma blocks whose functions were translated
+    # tie files: keep the lemma blocks whose functions were translated; blocks that failed to check against
+    # this very SrcGen.v on an earlier run (isolated by stage_coq) stay out
     have = set(r for r, _ in report.get("translated", []))
     kept, dropped = 0, []
+    failed_blocks = load_failed_blocks()
     for t in TIE_TEMPLATES:
         src = open(os.path.join(COQ, "Proofs", t + ".v.in")).read()
+        counter = [0]
         def sub(m):
             nonlocal kept
+            counter[0] += 1
+            bid = "%s#%d" % (t, counter[0])
             needs = m.group(1).split()
+            if bid in failed_blocks:
+                return "(*@ block %s FAILED to check against the current source *)\n" % bid
             if all(n in have for n in needs):
-                kept += 1; return m.group(2)
+                kept += 1; return "(*@ block %s *)\n%s(*@ endblock *)\n" % (bid, m.group(2))
             dropped.append([n for n in needs if n not in have])
-            return "(* block dropped: not translated: %s *)\n" % " ".join(n for n in needs if n not in have)
+            return "(*@ block %s dropped: not translated: %s *)\n" % (bid, " ".join(n for n in needs if n not in have))
         res = re.sub(r"\(\*@ needs ([^*]*?)\*\)\n(.*?)\(\*@ end \*\)\n", sub, src, flags=re.S)
         write_if_changed(os.path.join(COQ, "Proofs", t + ".v"), res)
     return {"ok": not problems, "report": report, "problems": problems, "notes": notes, "tie_blocks_kept": kept,
@@ -177,6 +202,7 @@ def stage_coq():
     if os.path.exists(status_path):
         st = json.load(open(status_path))
         if st.get("key") == key and os.path.exists(os.path.join(COQ, "bidi_model.ml")):
+            tr["tie_failed_blocks"] = load_failed_blocks()
             st["translate"] = tr
             return st
     log("building the Coq development")
@@ -201,6 +227,28 @@ def stage_coq():
         out = out2; dt += dt2
     if excluded:
         tr.setdefault("notes", []).append("translated terms that did not type-check and were excluded: " + ", ".join(excluded))
+    # a tie lemma that no longer checks must not take the other lemmas of its file (or the files importing it)
+    # down with it: isolate the failing block, record its lemmas, rebuild
+    failed_blocks = load_failed_blocks()
+    for _round in range(16):
+        m = re.search(r'File "\./Proofs/(SrcTie\w+)\.v", line (\d+)', out)
+        if not m: break
+        tf, eline = m.group(1), int(m.group(2))
+        lines = open(os.path.join(COQ, "Proofs", tf + ".v")).read().split("\n")
+        bid, start = None, None
+        for ln in range(min(eline, len(lines)) - 1, -1, -1):
+            mm = re.match(r"\(\*@ block (\S+) \*\)$", lines[ln])
+            if mm: bid, start = mm.group(1), ln; break
+            if lines[ln].startswith("(*@ endblock"): break
+        if not bid or bid in failed_blocks: break
+        end = next((k for k in range(start, len(lines)) if lines[k].startswith("(*@ endblock")), len(lines) - 1)
+        failed_blocks[bid] = re.findall(r"^\s*(?:Lemma|Corollary|Theorem)\s+(\w+)", "\n".join(lines[start:end]), re.M)
+        log("tie block %s (%s) no longer checks against the current source; isolating it" % (bid, ", ".join(failed_blocks[bid])))
+        save_failed_blocks(failed_blocks)
+        tr = stage_translate(tmp, exclude=excluded)
+        rc, out2, dt2 = sh("timeout 3000 make -k -j%d 2>&1" % NPROC, cwd=COQ, timeout=3100)
+        out = out2; dt += dt2
+    tr["tie_failed_blocks"] = failed_blocks
     failed = re.findall(r"\*\*\* \[[^\]]*?([A-Za-z0-9_/]+)\.vo\]", out)
     # a file that failed keeps its previous .vo, and make does not rebuild its dependents: remove those stale
     # objects so that nothing downstream of a broken proof can pass as "compiled"
@@ -430,22 +478,31 @@ def proof_status(prop, coq):
     if prop in ("C11", "C14", "C15"):
         problems += [x for x in tr.get("problems", []) if x.startswith("the two translators disagree")]
     skipped = {r: why for r, why in (tr.get("report") or {}).get("skipped", [])}
+    failed_lemmas = set(l for ls in (tr.get("tie_failed_blocks") or {}).values() for l in ls)
     for tf in tie["files"]:
         tsrc = os.path.join(COQ, tf)
         if not os.path.exists(tsrc): continue
         txt = re.sub(r"\(\*.*?\*\)", "", open(tsrc).read(), flags=re.S)
-        lem = re.findall(r"^\s*Lemma\s+(tie_\w+)", txt, re.M)
+        lem = re.findall(r"^\s*(?:Lemma|Corollary)\s+(tie_\w+)", txt, re.M)
         n = len(re.findall(r"^\s*(?:Theorem|Lemma|Corollary|Example|Fact|Proposition|Remark)\s", txt, re.M))
         obligations += n
         vo = os.path.join(COQ, tf + "o")
+        tpl = open(os.path.join(COQ, tf + ".in")).read() if os.path.exists(os.path.join(COQ, tf + ".in")) else ""
+        mine_failed = [l for l in re.findall(r"^\s*(?:Lemma|Corollary)\s+(tie_\w+)", tpl, re.M) if l in failed_lemmas]
         if os.path.exists(vo) and os.path.getmtime(vo) >= os.path.getmtime(tsrc):
             discharged += n; tie["established"] += lem
-        elif prop in TIE_FALLBACK_EXHAUSTIVE:
-            tie["not_established"] += lem
-            tie["notes"].append("%s no longer checks; this property's correspondence is exhaustive over the function's whole domain and is the tie" % tf)
         else:
-            tie["not_established"] += lem
-            problems.append("translated-source tie no longer checks: " + tf)
+            mine_failed += lem
+        if mine_failed:
+            obligations += len(mine_failed)
+            tie["not_established"] += mine_failed
+            if prop in TIE_FALLBACK_EXHAUSTIVE:
+                tie["notes"].append("%s: %s no longer check; this property's correspondence is exhaustive over the function's whole domain and is the tie" % (tf, ", ".join(mine_failed)))
+            else:
+                relevant_l = TIE_LEMMAS.get(prop)
+                hit = [l for l in mine_failed if relevant_l is None or l in relevant_l]
+                if hit:
+                    problems.append("translated-source tie no longer checks: %s (%s)" % (", ".join(hit), tf))
         stem = {"Proofs/SrcTieLevel.v": "level::", "Proofs/SrcTieTables.v": "char_data::", "Proofs/SrcTiePreds.v": ("prepare::", "implicit::", "char_data::is_rtl"),
                 "Proofs/SrcTieDir.v": "lib::para_direction", "Proofs/SrcTieBaseDir.v": "lib::get_base_direction_impl",
                 "Proofs/SrcTieL1.v": "lib::reorder_levels",
